@@ -8,6 +8,14 @@ assert(new_require == nil)
 assert(io == nil)
 assert(_new_loadData ~= nil)
 
+-- Privileged functions of phase 1: keep them as locals here and remove them
+-- from the environment at the end of this file, so that modules loaded from
+-- pages can neither extend or clear their own time limit nor get at the
+-- pcall that does not re-raise timeouts.
+local _lua_set_timeout = _lua_set_timeout
+local _lua_clear_timeout_hook = _lua_clear_timeout_hook
+local _raw_pcall = _raw_pcall
+
 local function frame_args_index(new_args, key)
     -- print("frame_args_index", key)
     local v = new_args._orig[key]
@@ -133,7 +141,7 @@ end
 -- Sandbox: nil -> "", table -> "table" (literally), function -> "function",
 -- the rest are stringified as normal and didn't test passing a thread or
 -- "userdata" which I'm still not sure what it is.
-local function _lua_invoke(mod_name, fn_name, frame, page_title, timeout)
+local function _lua_invoke_inner(mod_name, fn_name, frame, page_title)
     -- Initialize frame and parent frame
     local pframe = frame:getParent()
     -- print("lua_invoke", mod_name, fn_name)
@@ -156,8 +164,6 @@ local function _lua_invoke(mod_name, fn_name, frame, page_title, timeout)
 
     local mod_env = _mw_clone(_python_top_env() or _G)
     _python_append_env(mod_env)
-    -- Set time limit for execution of the Lua code
-    _lua_set_timeout(timeout)
 
     -- Load the module.  Note that the initializations above must be done before
     -- loading the module, as the module could refer to, e.g., page title
@@ -167,7 +173,7 @@ local function _lua_invoke(mod_name, fn_name, frame, page_title, timeout)
     if not mod then
         local initfn, msg = _new_loader(mod_name, mod_env)
         if initfn then
-            success, mod = pcall(initfn)
+            success, mod = _raw_pcall(initfn)
             if not success then
                 return false, ("\tLoading module failed in #invoke: " ..
                                mod_name .. "\n" .. tostring(mod))
@@ -184,8 +190,7 @@ local function _lua_invoke(mod_name, fn_name, frame, page_title, timeout)
         return false, "\tNo function '" .. fn_name .. "' in module " .. mod_name
     end
     -- Call the function in the module
-    local st, v = pcall(fn, frame)
-    _lua_clear_timeout_hook()
+    local st, v = _raw_pcall(fn, frame)
     -- print("Lua sandbox:", tostring(v))
     if type(v) == "string" then
         return st, v
@@ -200,6 +205,21 @@ local function _lua_invoke(mod_name, fn_name, frame, page_title, timeout)
         return st, "function"
     end
     return st, tostring(v)
+end
+
+-- Runs _lua_invoke_inner under the time limit.  The limit is armed before
+-- anything of the module runs (also its loading) and is released on every
+-- way out, including errors raised by the inner function itself.
+local function _lua_invoke(mod_name, fn_name, frame, page_title, timeout)
+    _lua_set_timeout(timeout)
+    local ok, st, v = _raw_pcall(
+        _lua_invoke_inner, mod_name, fn_name, frame, page_title
+    )
+    _lua_clear_timeout_hook()
+    if not ok then
+        error(st, 0)
+    end
+    return st, v
 end
 
 -- This should be called immediately after loading the sandbox to set the
@@ -257,5 +277,10 @@ end
 -- Make sure we are operating in the restricted environment
 assert(io == nil)
 assert(_G.io == nil)
+
+-- Hide the privileged functions from modules (see the top of this file)
+_G["_lua_set_timeout"] = nil
+_G["_lua_clear_timeout_hook"] = nil
+_G["_raw_pcall"] = nil
 
 return { _lua_set_functions, _lua_invoke, _lua_reset_env }
